@@ -755,7 +755,7 @@ def drain(F, R):
                 # ... and by its HANDLED_TRUE bit alone: a region that deferred or rejected the same event does not postpone the
                 # completion of the region that took a transition (results of the regions are OR-ed into one code)
                 bits = sorted({f.nodes[d]['n'] for d in deps if f.nodes[d] and f.nodes[d]['k'] == 'ref' and f.nodes[d].get('dk') == 'enum' and f.nodes[d]['n'].startswith('HANDLED_')})
-                if ok2 and bits != ['HANDLED_TRUE']:
+                if ok2 and [b for b in bits if b != 'HANDLED_FALSE'] != ['HANDLED_TRUE']:   # a comparison with HANDLED_FALSE (zero) adds nothing
                     ok2 = False; extra.append('result bits %s' % bits)
                 R.ob('C10.first', ok2, {'func': f.q, 'armed_by': f.expr(n['args'][1])})
                 if not ok2:
@@ -1471,6 +1471,9 @@ def copyspecial(F, R):
 def poolloop(F, R):
     """C04.pool-loop / C05.before-dispatch (backmp11): shape of the event-pool processing loop and of the occurrence processors."""
     from rules_order import dependency_closure
+    # the functions that answer "is a completion occurrence pending": whatever reads the completion mark (found by what they call,
+    # not by their name), and the mark's reader itself
+    pending_helpers = {'is_completion'} | {g.n for g in F.funcs if backend_of(g) == 'backmp11' and g.blocks and g.cls == 'state_machine_base' and g.n != 'do_process_event_pool' and any(n.get('n') == 'is_completion' for i, n in g.calls())}
     for f in F.funcs:
         if backend_of(f) != 'backmp11' or not f.blocks: continue
         if f.n == 'do_process_event_pool' and f.cls == 'state_machine_base':
@@ -1525,7 +1528,7 @@ def poolloop(F, R):
                                 # C10.pool-limit: the scan stops at the caller's limit only when no completion occurrence of the step just
                                 # taken is pending (they sit at the front of the pool): otherwise the next process_event() is dispatched
                                 # before the completion transition, which then runs from a state that is no longer active (D35)
-                                cp = next((v for k, v in sg['facts'] if 'completion_pending' in k), None)
+                                cp = next((v for k, v in sg['facts'] if any(h in k for h in pending_helpers)), None)
                                 R.anchor('pool-limit-stop')
                                 R.ob('C10.pool-limit', cp is False, {'func': f.q, 'tokens': tk, 'completion_pending_on_stop_path': cp})
                                 if cp is not False:
@@ -1534,7 +1537,7 @@ def poolloop(F, R):
                                 ok = False; why = 'the scan stops at the event limit after a dispatch without advancing the sequence counter (found %s, deferred-bit test on this path: %s): events deferred by an action stay ineligible for every later process_event_pool call until another event is submitted' % (tk, with_def)
             R.ob('C04.pool-loop', ok, {'func': f.q, 'paths': npaths})
             if not ok: R.find('C04.pool-loop', f, 'loop-shape', why)
-        if f.n == 'completion_pending' and f.cls == 'state_machine_base':
+        if f.n in pending_helpers and f.n != 'is_completion' and f.cls == 'state_machine_base':
             # answers for the first occurrence that is not marked as processed, with its completion mark; false for an empty pool
             R.seen(f); R.anchor('pool-limit-helper')
             okh = True; whyh = ''
